@@ -24,7 +24,7 @@ RULE = ("case = 1..4 PDO maps (layouts as in C05: any integer type / REAL / BOOL
         "transmit, deliver a raw frame with a generated id, reconfigure a consumer map to another COB-ID "
         "and re-subscribe, add a callback, remote_request (from the consumer or from a third node that took "
         "the configuration from the device after the consumer's save()), wait_for_reception with a second thread "
-        "delivering (or nothing delivered). Oracle: per-map reception model (data, timestamp, callback "
+        "delivering (or nothing delivered), callbacks that block for 5..50 ms. Oracle: per-map reception model (data, timestamp, callback "
         "counts) + the C05 bit-field model for values; transmit = exactly (COB-ID, current data); RTR frame "
         "iff enabled and RTR allowed. Non-trivial = >= 2 maps and a reception with a non-byte-aligned layout "
         "or a colliding / reconfigured id; distinct = canonical JSON.")
@@ -146,9 +146,12 @@ def run_case(case) -> Outcome:
     callbacks = [[] for _ in maps]
     feats = set()
 
-    def mk_cb(m, k):
+    def mk_cb(m, k, slow=0):
         def cb(pm):
             cb_log.append((m, k, pm is cmaps[m]))
+            if slow:
+                # user code that blocks for a moment (I/O, logging): the receiving thread gives up the CPU here
+                time.sleep(slow / 1000.0)
         return cb
 
     def expect_receive(can_id, data, ts):
@@ -259,7 +262,9 @@ def run_case(case) -> Outcome:
             elif kind == "callback":
                 k = len(callbacks[m])
                 callbacks[m].append(k)
-                cmaps[m].add_callback(mk_cb(m, k))
+                cmaps[m].add_callback(mk_cb(m, k, op.get("slow", 0)))
+                if op.get("slow"):
+                    feats.add("slow-callback")
             elif kind == "rtr":
                 by_mon = op.get("who") == "mon"
                 rport, rmap = (port_m, mmaps[m]) if by_mon else (port_c, cmaps[m])
@@ -403,6 +408,8 @@ def case_strategy(draw):
                         "data": draw(st.binary(min_size=8, max_size=8))})
         elif kind == "rtr":
             ops.append({"op": "rtr", "m": m, "who": draw(st.sampled_from(["cons", "cons", "mon"]))})
+        elif kind == "callback" and draw(st.integers(0, 3)) == 0:
+            ops.append({"op": "callback", "m": m, "slow": draw(st.sampled_from([5, 10, 20]))})
         else:
             ops.append({"op": kind, "m": m})
     return {"maps": maps, "ops": ops, "config": draw(st.sampled_from(["direct", "direct", "from_od", "sdo"]))}
@@ -431,6 +438,15 @@ def enum_cases():
                    {"op": "raw", "id": 0x186, "data": b"\x11\x22\x33\x44\x55\x66\x77\x88"},
                    {"op": "wait", "m": 0, "deliver": True, "data": b"\x01\x02\x03\x04\x05\x06\x07\x08"},
                    {"op": "wait", "m": 1, "deliver": False, "data": b""}]}
+    # a waiting reader and a callback that blocks for a moment
+    for slow in (5, 20, 50):
+        for ncb in (1, 2):
+            yield {"maps": [{"cob": 0x186, "layout": lay}, {"cob": 0x286, "layout": lay}],
+                   "ops": [{"op": "callback", "m": 0, "slow": slow}] * ncb +
+                          [{"op": "wait", "m": 0, "deliver": True, "data": b"\x01\x02\x03\x04\x05\x06\x07\x08"},
+                           {"op": "write", "m": 0, "j": 2, "v": 77}, {"op": "transmit", "m": 0},
+                           {"op": "wait", "m": 0, "deliver": True, "data": b"\xff" * 8},
+                           {"op": "wait", "m": 1, "deliver": False, "data": b""}]}
 
 
 def search(ctx):
